@@ -50,7 +50,7 @@ def main():
     known_listed = {k['id']: k for k in known_findings('C15')}
     cases = []
     SEG = ['a', 'b', 'c', 'index.html', 'x:y', '12:30', '%41:b', '_b:x', 'é']
-    n = 20000 if thorough else 4000
+    n = 100000 if thorough else 4000
     for fam in ('uri', 'iri'):
         g = Gen(random.Random(rnd.random()), fam)
         for i in range(n // 2):
